@@ -47,14 +47,31 @@ def model_cases(chk, model, cfgfile=None, timeout=3000, xmx="24g"):
     return cases
 
 
-def driver_case(c, variant=0):
+def driver_case(c, variant=0, via="argv"):
     env = []
     for k, e in enumerate(c["env"]):
         if e == [] and (variant + k) % 2 == 0:
             env.append("unset")
         else:
             env.append(e)
-    return dict(cfg=c["cfg"], env=env, calls=[x["argv"] for x in c["calls"]])
+    return dict(cfg=c["cfg"], env=env, calls=[x["argv"] for x in c["calls"]], via=via)
+
+
+def inputs_view(c):
+    """The same history as seen through parse(vector<user_input>): expectation classes come from the specification
+    (CaseRec.inputs); where both entry points accept, the result is the same."""
+    calls = []
+    for x, cls in zip(c["calls"], c["inputs"]):
+        if cls == "ok":
+            calls.append(dict(argv=x["argv"], res=x["res"], why=""))
+        elif cls == "parser_error":
+            calls.append(dict(argv=x["argv"], res=dict(oc="parser_error", st=[], pos=[]), why="Inconsistent"))
+        else:
+            calls.append(dict(argv=x["argv"], res=dict(oc="error", st=[], pos=[]), why=x["why"] or "Malformed"))
+    ok_calls = [k for k, (x, cls) in enumerate(zip(c["calls"], c["inputs"])) if cls == "ok" and x["res"]["oc"] != "ok"]
+    if ok_calls:
+        return None      # cannot happen: whatever the vector entry accepts the argv entry accepts too
+    return dict(cfg=c["cfg"], env=c["env"], calls=calls, open=[False] * len(calls), inputs=c["inputs"])
 
 
 def strip_st(st):
@@ -97,8 +114,10 @@ def compare_case(chk, c, o, dcase):
         return
     for k, x in enumerate(c["calls"]):
         hist = " (call %d of %d on one parser)" % (k + 1, len(c["calls"])) if len(c["calls"]) > 1 else ""
-        wit = dict(cfg=c["cfg"], env=dcase["env"], calls=dcase["calls"][:k + 1])
+        wit = dict(cfg=c["cfg"], env=dcase["env"], calls=dcase["calls"][:k + 1], via=dcase.get("via", "argv"))
         where0 = ("Scan/" + x["why"]) if x["res"]["oc"] == "error" else "Result"
+        if dcase.get("via") == "inputs":
+            where0 = "ViaInputs/" + where0
         if k > 0:
             where0 = "Reparse/" + where0
         if k >= len(calls):
@@ -170,6 +189,9 @@ def replay_model(chk, exe, model, variants=(0,), timeout=3000):
         has_empty = any(e == [] for e in c["env"])
         for v in (variants if has_empty else variants[:1]):
             dcs.append((c, driver_case(c, v)))
+        ci = inputs_view(c) if "inputs" in c else None
+        if ci is not None:
+            dcs.append((ci, driver_case(ci, 0, via="inputs")))
     obs = vc.run_cases(exe, [d for _, d in dcs], chk.out, "replay_" + model, per_case_timeout=10)
     skipped = 0
     for (c, d), o in zip(dcs, obs):
@@ -444,7 +466,9 @@ def record_and_validate(chk, exe, n_parsers, profile, calls_per_parser=(1, 1)):
                 dcases.append(dict(cfg=cfg, env=env, calls=calls, want=wants))
         else:
             dcases.append(dict(cfg=cfg, env=env, calls=[rand_argv(rng, cfg, profile) for _ in range(k)]))
-    obs = vc.run_cases(exe, [dict(cfg=d["cfg"], env=d["env"], calls=d["calls"]) for d in dcases], chk.out, "record", per_case_timeout=10)
+    for k, d in enumerate(dcases):
+        d["via"] = "inputs" if (k % 4 == 3 and not profile.get("long")) else "argv"
+    obs = vc.run_cases(exe, [dict(cfg=d["cfg"], env=d["env"], calls=d["calls"], via=d["via"]) for d in dcases], chk.out, "record", per_case_timeout=10)
     execs = []
     meta = []
     for d, o in zip(dcases, obs):
@@ -457,7 +481,7 @@ def record_and_validate(chk, exe, n_parsers, profile, calls_per_parser=(1, 1)):
             if k < len(calls):
                 g = calls[k]
                 oc = "ok" if g["oc"] == "ok" else ("error" if g["oc"] == "parsing_error" else g["oc"])
-                ev = dict(e="Parse", cfg=d["cfg"], env=tenv, argv=av, oc=oc,
+                ev = dict(e="Parse", cfg=d["cfg"], env=tenv, argv=av, oc=oc, via=d["via"],
                           st=strip_st(g["st"]) if oc == "ok" else [], pos=g["pos"] if oc == "ok" else [],
                           want=d.get("want", [NOWANT] * len(d["calls"]))[k])
                 if oc == "ok":
@@ -465,7 +489,7 @@ def record_and_validate(chk, exe, n_parsers, profile, calls_per_parser=(1, 1)):
                     if e2:
                         chk.diverge("Access", "wrong-access", dict(cfg=d["cfg"], env=d["env"], calls=d["calls"][:k + 1]), e2)
             else:
-                ev = dict(e="Parse", cfg=d["cfg"], env=tenv, argv=av, oc=str(o.get("outcome")), st=[], pos=[],
+                ev = dict(e="Parse", cfg=d["cfg"], env=tenv, argv=av, oc=str(o.get("outcome")), st=[], pos=[], via=d["via"],
                           want=d.get("want", [NOWANT] * len(d["calls"]))[k])
                 evs.append(ev)
                 break
@@ -483,7 +507,7 @@ def record_and_validate(chk, exe, n_parsers, profile, calls_per_parser=(1, 1)):
     for k, matched, path, why in rej:
         d, o = meta[k]
         ev = execs[k][min(matched, len(execs[k]) - 1)]
-        wit = dict(cfg=d["cfg"], env=d["env"], calls=d["calls"][:matched + 1])
+        wit = dict(cfg=d["cfg"], env=d["env"], calls=d["calls"][:matched + 1], via=d["via"])
         observed = ev["oc"] if ev["oc"] not in ("ok", "error") else ("accepted" if ev["oc"] == "ok" else "rejected")
         chk.diverge(("Reparse/" if matched > 0 else "") + "Trace", observed, wit,
                     "recorded parse call %d rejected by OptTrace (%s): argv=%s env=%s decl=%s -> %s %s" % (
